@@ -17,7 +17,7 @@ MANIFEST = {
     "text": "Model/Optical.lean is written once over a law-free number class with random numbers "
             "taken from an explicit script of canonical uniforms. Proved at ℝ: from_spherical is "
             "unit; rotate is an isometry in all three branches (dot products and norms kept; image "
-            "of the z axis is rot except in the near-axis branch where it is (rx,|ry|,rz)); Cerenkov "
+            "of the z axis is rot); Cerenkov "
             "and scintillation photons have unit direction, unit polarisation, dir·pol = 0; Cerenkov "
             "photons are on the cone cosθ = 1/(n β̄), energies inside the grid; positions on the step "
             "segment; times ≥ pre-step time; dN/dx = 0 and no photons requested below threshold; "
@@ -432,6 +432,10 @@ def py_ri(m, e):
 
 
 C_LIGHT = 2.99792458e10
+# polar-angle tolerance: rotate computes sinθ = sqrt(1 − rot_z²); a half-ulp defect of |rot|
+# (make_unit_vector((0,0,dz)) = (0,0,±(1 − 2⁻⁵³)) for ~14 % of dz) becomes a tilt of
+# sqrt(2⁻⁵²) = 1.5e-8 of the cone axis.  Measured maximum 1.5e-8; anything larger is reported.
+CONE_TOL = 4e-8
 
 
 def check_common(st, p, fails, tag, line, out, dot_tol):
@@ -527,7 +531,7 @@ def oracle_line(line, meta, out, fails):
             if sd is not None:
                 cos_expected = (2 / (st["v0"] + st["v1"])) / py_ri(m, E)
                 cos_actual = dot(p[2], sd)
-                if not (abs(cos_actual - cos_expected) <= 1e-9):
+                if not (abs(cos_actual - cos_expected) <= CONE_TOL):
                     key = "rotate-near-axis-sign" if near_axis_negy(sd) else "cerenkov-off-cone"
                     fails.append((key, line, out, dict(info, cos_expected=cos_expected,
                                                       cos_actual=cos_actual, step_dir=sd)))
@@ -555,7 +559,7 @@ def oracle_line(line, meta, out, fails):
         if not abs(norm(v) - 1) <= 1e-13:
             fails.append(("rotate-not-unit", line, out, {"dir": d, "rot": r, "result": v}))
             return
-        if not abs(dot(v, r) - d[2]) <= 1e-9:
+        if not abs(dot(v, r) - d[2]) <= CONE_TOL:
             key = "rotate-near-axis-sign" if near_axis_negy(r) else "rotate-polar-angle"
             fails.append((key, line, out, {"dir": d, "rot": r, "result": v,
                                             "result_dot_rot": dot(v, r), "expected": d[2]}))
@@ -699,6 +703,12 @@ def run(ctx):
                       {"no_longer_checks": broken, "diverging_ops": diverged[:3]}, found_input=False)
     if not quick and ps["build"]["ok"]:
         common.leanchecker(ctx, ["CelerVerif.Props.C20"])
+    ctx.coverage["trusted_base"] = list(ctx.coverage.get("trusted_base", [])) + [
+        "executable-only bindings in Model/OpticalDriver.lean (no theorem depends on them; they are "
+        "parameters of the model): glibc expm1 bound via @[extern \"expm1\"]; transcription of "
+        "celeritas detail/Sincospi.hh with the exact fma; x86-64 cvttsd2si double→unsigned cast — "
+        "each compared bit-for-bit with the C++ function by the expm1/sincospi/cast ops of this run",
+    ]
     ctx.assumptions += [
         "theorems are about the real-number reading of Model/Optical.lean; the same definitions "
         "executed at Float equal the C++ results bit-for-bit on every op compared in this run",
